@@ -75,6 +75,39 @@ void run(Report & rep, Rng & rng, int n, double tol, double tol_pi, double pi_ba
       rep.tally(gname + (nearpi ? ".exp_log_nearpi" : ".exp_log"), e);
       if (!(e <= (nearpi ? tol_pi : tol))) fail("exp_log", e, nearpi ? tol_pi : tol, rl, sg, lg, g);
     }
+    // ---- the same maps through the other public entry points: free functions of the LieGroup interface, operators + - +=
+    //      and the left variants (documented: rplus = g*exp(a), rminus = log(g2^-1*g1), lplus = exp(a)*g, lminus = log(g1*g2^-1))
+    {
+      std::string sg;
+      G g  = gen_elem<G>(rng, &sg, 10.0);
+      G g2 = gen_elem<G>(rng, nullptr, 10.0);
+      auto same = [&](const char * what, const auto & x, const auto & y) {
+        double e = 0;
+        for (Eigen::Index i = 0; i < x.size(); ++i) {
+          double d = std::abs(static_cast<double>(x(i)) - static_cast<double>(y(i)));
+          double sc = std::max(1.0, std::abs(static_cast<double>(y(i))));
+          if (!(d / sc <= e)) e = d / sc;
+        }
+        rep.tally(gname + ".api." + what, e);
+        if (!(e <= (sizeof(S) == 4 ? 1e-5 : 1e-13))) fail(what, e, 1e-13, rn, st, a, g);
+      };
+      const G ga = g * ea;
+      same("api_free_exp", smooth::exp<G>(a).coeffs(), ea.coeffs());
+      same("api_free_log", smooth::log(g), g.log());
+      same("api_rplus", smooth::rplus(g, a).coeffs(), ga.coeffs());
+      same("api_op_plus", (g + a).coeffs(), ga.coeffs());
+      {
+        G h = g;
+        h += a;
+        same("api_op_pluseq", h.coeffs(), ga.coeffs());
+      }
+      same("api_lplus", smooth::lplus(g, a).coeffs(), (ea * g).coeffs());
+      same("api_rminus", smooth::rminus(g, g2), (g2.inverse() * g).log());
+      same("api_op_minus", g - g2, (g2.inverse() * g).log());
+      same("api_lminus", smooth::lminus(g, g2), (g * g2.inverse()).log());
+      same("api_free_comp", smooth::composition(g, g2).coeffs(), (g * g2).coeffs());
+      same("api_free_inverse", smooth::inverse(g).coeffs(), g.inverse().coeffs());
+    }
     if (c < 1) {
       std::ostringstream os;
       os << "{\"group\":\"" << gname << "\",\"stratum\":\"" << st << "\",\"a\":" << jvec(a) << "}";
